@@ -937,6 +937,7 @@ def kernel_cross_check(ctx, report, status):
             amb = ambiguity.Ambiguity.compute_ambiguity(cost, *args)
             amb2, sampled = ambiguity.Ambiguity.compute_ambiguity_and_sampled_ambiguity(cost, *args)
             rmax, rmin = risk.Risk.compute_risk(cost, sampled, *args)
+            rmax2, rmin2, srmax, srmin = risk.Risk.compute_risk_and_sampled_risk(cost, sampled, *args)
             binf, bsup = interval_bounds.IntervalBounds.compute_interval_bounds(cost, dispf, f4(float(thr)), f4(tf))
         report.count("kernel_translation_calls")
         for r in range(cost.shape[0]):
@@ -946,6 +947,7 @@ def kernel_cross_check(ctx, report, status):
                 got = {}
                 want = {"computeAmbiguityPx": [amb[r, c]], "computeAmbiguitySampledPx": [amb2[r, c], [x for x in sampled[r, c, :]]],
                         "computeRiskPx": [rmax[r, c], rmin[r, c]],
+                        "computeRiskSampledPx": [rmax2[r, c], rmin2[r, c], [x for x in srmax[r, c, :]], [x for x in srmin[r, c, :]]],
                         "computeIntervalBoundsPx": [binf[r, c], bsup[r, c]]}
                 for name, k in ks.items():
                     a = {}
